@@ -78,7 +78,7 @@ def main(c):
             raise vf.ToolError(f"no result for case {i}")
         if e["sent"]:
             nontrivial += 1
-        for branch in ("plain", "addpath"):
+        for branch in ("plain", "addpath", "addpath_companion"):
             bad = []
             if g.get("panic"):
                 bad.append("panic")
@@ -122,16 +122,16 @@ def main(c):
                     c.violation("prop." + bad[0].split(":")[0].replace(" ", "_"),
                                 {"case": k, "branch": branch, "failed": bad, "expected": e, "actual": g.get(branch)},
                                 {"spec": "Propagation", "case": k, "branch": branch})
-    c.cov["evaluations"] = 2 * len(cases)
+    c.cov["evaluations"] = 3 * len(cases)
     c.cov["distinct_nontrivial"] = nontrivial
     c.cov["exhaustive"] = True
     c.cov["rule"] = ("every case of the matrix (source kind x receiver role x confederation x AS_PATH shape x attribute-presence vector "
                      f"[{len(hs)} vectors] x LLGR-stale x same-peer x export policy [none; for 3 vectors also next-hop / MED / community-replace "
-                     f"actions]), both export branches; non-trivial = the statement requires the route to be sent")
+                     f"actions]), both export branches, the ADD-PATH one also with a locally originated companion path ranked first; non-trivial = the statement requires the route to be sent")
     c.sample(cases[len(cases) // 3])
     c.assumptions += [
         "fields the statement leaves open are not compared: everything but the opaque-attribute rule for RS clients (RFC 7947 "
-        "transparency vs the eBGP clause), next hop / MED of locally originated routes, kernel-redistributed routes towards iBGP",
+        "transparency vs the eBGP clause), next hop / MED of locally originated routes",
         "iBGP sessions always carry a cluster id (accept_connection defaults it to the router id), so reflection applies to every "
         "iBGP-learned route sent to an iBGP peer that split horizon lets through",
     ]
